@@ -154,6 +154,58 @@ def _quiet(fn):
             return fn()
 
 
+# ---- data layout and type: the same numbers handed over as another kind of array -------------------------------------------
+# "plain" float64 C-contiguous; "int" integer array (integral values only); "f32" float32 (values that float32 represents
+# exactly only); "view" non-contiguous view; "ro" read-only array; "list" python list (only where array_like is documented)
+def _layouts(a, allow=("plain", "int", "f32", "view", "ro")):
+    a = np.asarray(a, dtype=float)
+    out = []
+    for how in allow:
+        if how == "int" and not (a.size and np.all(a == np.round(a)) and np.all(np.abs(a) < 2.0 ** 52)):
+            continue
+        if how == "f32" and not np.array_equal(a.astype(np.float32).astype(float), a):
+            continue
+        out.append(how)
+    return out
+
+
+def _lay(a, how):
+    a = np.array(a, dtype=float)
+    if how == "int":
+        return a.astype(np.int64)
+    if how == "f32":
+        return a.astype(np.float32)
+    if how == "view":
+        v = np.repeat(a, 2, axis=0)[::2]
+        assert not v.flags["C_CONTIGUOUS"] or v.size <= 1
+        return v
+    if how == "ro":
+        a.flags.writeable = False
+        return a
+    if how == "list":
+        return a.tolist()
+    return a
+
+
+def _pick(a, idx, allow=("plain", "int", "f32", "view", "ro")):
+    """the layout of the array `a` for the harness-side variant idx (deterministic; replay() runs idx = 0..11)"""
+    ls = _layouts(a, allow)
+    how = ls[idx % len(ls)]
+    return _lay(a, how), how
+
+
+def _xf_nodes(xfm, nodes):
+    """PDE.tla, 'where the grids lie on the axis': x = om 2^oe + 2^se xi for the reference nodes xi (exact rationals); the result
+    has to be exactly representable (powers of two) - otherwise the replayer would observe on other grids than the specification"""
+    from cuqiverif.core import MachineryError
+    om, oe, se = int(xfm["om"]), int(xfm["oe"]), int(xfm["se"])
+    exact = [om * Fraction(2) ** oe + Fraction(2) ** se * Fraction(q[0], q[1]) for q in nodes]
+    out = np.array([float(v) for v in exact], dtype=float)
+    if any(Fraction(f) != v for f, v in zip(out.tolist(), exact)):
+        raise MachineryError("change of variable %r: a node is not a binary floating point number" % (xfm,))
+    return out
+
+
 def _refused(ctx, order, sig, case, what, ex, expected=None, detail=None):
     # sig: function tag -> signature
     """An observation call raised.  `order` = the spec's class of the observation grid / times of that call:
@@ -478,15 +530,26 @@ def _restrict(u, x, T, gobs, tobs):
 
 # ----------------------------------------------------------------------------------------------------------
 def check_tobs(ctx, cuqi, c, idx):
-    x, T = _qv(c["x"]), _qv(c["T"])
-    gobs, tobs = _qv(c["gobs"]), _qv(c["tobs"])
+    # where the grids lie on the axis: the reference nodes under the change of variable xf (the expected values do not depend on it)
+    xfm = c.get("xfm", {"om": 0, "oe": 0, "se": 0})
+    xf = c.get("xf", "id")
+    x, T = _xf_nodes(xfm, c["x"]), _xf_nodes(xfm, c["T"])
+    gobs, tobs = _xf_nodes(xfm, c["gobs"]), _xf_nodes(xfm, c["tobs"])
     data = _qm(c["data"])
     exp = _qm(c["fwd"])
     if not c.get("mapped", True):          # exact p(x_obs, t_obs) from TLC; the (elementwise) map is applied here (32-bit TLC)
         exp = _apply(c["omap"], exp)
     if len(tobs) == 1:
         exp = exp[:, 0]
-    key = "observe_time/poly/g=%s/t=%s/omap=%s" % (c["g"], c["t"], c["omap"])
+    key = "observe_time/poly/g=%s/t=%s/omap=%s" % (c["g"], c["t"], c["omap"]) + ("" if xf == "id" else "/xf=%s" % xf)
+    # data layout and type (every third variant): the same nodes / times as integer, float32, non-contiguous, read-only arrays,
+    # time_obs ('array_like') also as a list
+    lay = {}
+    if idx % 3 == 2:
+        x, lay["x"] = _pick(x, idx // 3)
+        T, lay["T"] = _pick(T, idx // 3 + 1)
+        gobs, lay["gobs"] = _pick(gobs, idx // 3 + 2)
+        tobs, lay["tobs"] = _pick(tobs, idx // 3 + 3, ("plain", "list", "int", "f32", "view", "ro"))
     kw = dict(time_steps=T, grid_sol=x, observation_map=_omap(c["omap"]))
     if c["g"] != "same" or idx % 2:
         kw["grid_obs"] = gobs
@@ -494,37 +557,52 @@ def check_tobs(ctx, cuqi, c, idx):
         kw["time_obs"] = c["t"]
     else:
         kw["time_obs"] = tobs
-    ctx.case(("tobs", c["c"], c["g"], c["t"], c["omap"]), facet="observe/poly-time")
+    ctx.case(("tobs", c["c"], c["g"], c["t"], c["omap"], xf), facet="observe/poly-time" + ("" if xf == "id" else "/xf"))
+    nx = len(c["x"])
     try:
-        pde = cuqi.pde.TimeDependentLinearPDE(lambda p, t: (np.eye(len(x)), np.zeros(len(x)), np.zeros(len(x))), **kw)
+        pde = cuqi.pde.TimeDependentLinearPDE(lambda p, t: (np.eye(nx), np.zeros(nx), np.zeros(nx)), **kw)
         obs = np.asarray(_quiet(lambda: pde.observe(data.copy())), dtype=float)
     except Exception as e:
-        _refused(ctx, c.get("order", "asc"), lambda tag: key + "/" + tag, c, "observe", e, exp)
+        _refused(ctx, c.get("order", "asc"), lambda tag: key + "/" + tag, c, "observe", e, exp, detail={"layout": lay} if lay else None)
         return
-    exact = c["g"] == "same" and c["t"] == "final"
-    if (exact and c["omap"] == "id" and not np.array_equal(obs, data[:, -1])) or not _close(obs, exp, 1e-9):
-        ctx.mismatch(key, c, "observe() of polynomial data is not p(x_obs[i], t_obs[j]) (restriction at coinciding nodes/times, "
-                     "polynomial-reproducing interpolation otherwise; in the order of grid_obs=%s and time_obs=%s) followed by the "
-                     "observation map" % (gobs.tolist(), tobs.tolist()), exp, obs)
+    exact = c["g"] == "same" and c["t"] == "final" and not lay
+    tol = 1e-6 if "f32" in lay.values() else 1e-9          # float32 nodes: the precision of the storage type of the grid
+    if (exact and c["omap"] == "id" and not np.array_equal(obs, data[:, -1])) or not _close(obs, exp, tol):
+        ctx.mismatch(key + ("/layout" if lay else ""), c,
+                     "observe() of polynomial data is not p(x_obs[i], t_obs[j]) (restriction at coinciding nodes/times, "
+                     "polynomial-reproducing interpolation otherwise; in the order of grid_obs=%s and time_obs=%s; grid_sol=%s "
+                     "time_steps=%s%s) followed by the observation map"
+                     % (np.asarray(gobs, float).tolist(), np.asarray(tobs, float).tolist(), np.asarray(x, float).tolist(),
+                        np.asarray(T, float).tolist(), "; layouts %s" % lay if lay else ""), exp, obs)
 
 
 def check_sobs(ctx, cuqi, c, idx):
-    x, gobs = _qv(c["x"]), _qv(c["gobs"])
+    xfm = c.get("xfm", {"om": 0, "oe": 0, "se": 0})
+    xf = c.get("xf", "id")
+    x, gobs = _xf_nodes(xfm, c["x"]), _xf_nodes(xfm, c["gobs"])
     data, exp = _qv(c["data"]), _qv(c["fwd"])
-    key = "observe_steady/poly/g=%s/omap=%s" % (c["g"], c["omap"])
+    key = "observe_steady/poly/g=%s/omap=%s" % (c["g"], c["omap"]) + ("" if xf == "id" else "/xf=%s" % xf)
+    lay = {}
+    if idx % 3 == 2:          # data layout and type, see check_tobs
+        x, lay["x"] = _pick(x, idx // 3)
+        gobs, lay["gobs"] = _pick(gobs, idx // 3 + 1)
     kw = dict(grid_sol=x, observation_map=_omap(c["omap"]))
     if c["g"] != "same" or idx % 2:
         kw["grid_obs"] = gobs
-    ctx.case(("sobs", c["c"], c["g"], c["omap"]), facet="observe/poly-steady")
+    ctx.case(("sobs", c["c"], c["g"], c["omap"], xf), facet="observe/poly-steady" + ("" if xf == "id" else "/xf"))
+    nx = len(c["x"])
     try:
-        pde = cuqi.pde.SteadyStateLinearPDE(lambda p: (np.eye(len(x)), np.zeros(len(x))), **kw)
+        pde = cuqi.pde.SteadyStateLinearPDE(lambda p: (np.eye(nx), np.zeros(nx)), **kw)
         obs = np.asarray(_quiet(lambda: pde.observe(data.copy())), dtype=float)
     except Exception as e:
-        _refused(ctx, c.get("order", "asc"), lambda tag: key + "/" + tag, c, "observe", e, exp)
+        _refused(ctx, c.get("order", "asc"), lambda tag: key + "/" + tag, c, "observe", e, exp, detail={"layout": lay} if lay else None)
         return
-    if (c["g"] == "same" and c["omap"] == "id" and not np.array_equal(obs, data)) or not _close(obs, exp, 1e-9):
-        ctx.mismatch(key, c, "observe() of quadratic data is not p(x_obs[k]), k in the order of grid_obs=%s, followed by the "
-                     "observation map" % gobs.tolist(), exp, obs)
+    tol = 1e-6 if "f32" in lay.values() else 1e-9
+    if (c["g"] == "same" and c["omap"] == "id" and not lay and not np.array_equal(obs, data)) or not _close(obs, exp, tol):
+        ctx.mismatch(key + ("/layout" if lay else ""), c,
+                     "observe() of quadratic data is not p(x_obs[k]), k in the order of grid_obs=%s (grid_sol=%s%s), followed by the "
+                     "observation map" % (np.asarray(gobs, float).tolist(), np.asarray(x, float).tolist(),
+                                          "; layouts %s" % lay if lay else ""), exp, obs)
 
 
 # ----------------------------------------------------------------------------------------------------------
@@ -578,9 +656,198 @@ def _seq_arg(e):
                      ("pipeline", "forward", "mutate_param", "mutate_grid", "reassign") else "")
 
 
+def _solve_form(c, calls, ic_layout):
+    """mode "solve": operator, source and third component depend on the parameter AND on time:
+    A = A0 + t A1 + th[0] A2, f = f0 + t f1 + Fth th, third component c0 + U0 th + (t - t_1) w"""
+    m = c["m"]
+    A0, A1, A2 = (np.array(m[k], dtype=float) for k in ("A0", "A1", "A2"))
+    f0, f1, Fth, U0 = (np.array(m[k], dtype=float) for k in ("f0", "f1", "Fth", "U0"))
+    c0, w = np.array(m["c0"], dtype=float), np.array(m["w"], dtype=float)
+    t1 = _q(c["T"][0])
+
+    def form(p, t):
+        p = np.array(p, dtype=float)          # (the form is the user's: it accepts whatever the user passes as parameter)
+        t = float(t)
+        calls.append((p.copy(), t))
+        ic = c0 + U0 @ p + (t - t1) * w
+        if ic_layout in _layouts(ic, ("int", "view", "ro")):          # an ndarray in any case (documented: the type of the solution)
+            ic = _lay(ic, ic_layout)
+        return A0 + t * A1 + p[0] * A2, f0 + t * f1 + Fth @ p, ic
+    return form
+
+
+def check_solve_seq(ctx, cuqi, c, idx):
+    """mode "solve" of the kind tseq: Assemble(p1) Solve Assemble(p2) Solve ... / Forward(p1) Forward(p2) Gradient(p) on ONE
+    TimeDependentLinearPDE (PDEModel) with one, two or three time steps and one or two nodes: every solve has to return the levels
+    of the documented recurrence for the parameter assembled LAST (TLC's exact levels)"""
+    via, m, method = c["via"], c["m"], c["method"]
+    n, omap = m["n"], c["omap"]
+    base = "seq/solve/%s/%s/n=%d/nt=%d" % (method, via, n, len(c["T"]))
+    ident = ("solve", via, n, c["tg"], method)
+    fac = "seq/solve/tseq"
+    calls = []
+    # data layout and type of the arrays of the user: time levels, solution grid, parameters, the initial condition the form returns
+    T, lay_T = _pick(_qv(c["T"]), idx)
+    x, lay_x = _pick(_qv(c["new"]["gs"]), idx // 2, ("plain", "ro", "f32", "view"))
+    ic_layout = ("plain", "int", "view", "ro")[(idx // 3) % 4]
+    par_allow = ("plain", "int", "ro", "view") + (("list",) if via == "pde" else ())      # PDEModel.forward documents ndarray / CUQIarray
+    lays = {"time_steps": lay_T, "grid_sol": lay_x, "initial_condition": ic_layout}
+    form = _solve_form(c, calls, ic_layout)
+    path = []
+
+    def sig(what):
+        return "%s/%s/path=%s" % (base, what, ".".join(path) or "new")
+
+    def param(th, k):
+        arr, how = _pick(np.array(th, dtype=float), idx + k, par_allow)
+        return arr, how
+
+    def levels_ok(got, exp):
+        got = np.asarray(got, dtype=float)
+        return got.shape == exp.shape and _close(got, exp)
+
+    def wrong_levels(e, got, what, how):
+        exp = _seq_levels(e["val"]["sol"])
+        ctx.mismatch(sig("solution"), c,
+                     "%s after %s: the stored time levels are not those of the %s recurrence from the initial condition for the "
+                     "parameter %s assembled LAST (time_steps=%s; layouts %s, parameter as %s)"
+                     % (what, ".".join(path[:-1]) or "construction", method, e["val"]["th"], _qv(c["T"]).tolist(), lays, how),
+                     exp, got, detail={"step": len(path)})
+
+    ctx.case(("seq-new",) + ident, facet=fac + "/new")
+    th0, how0 = param(c["th0"], 0)
+    try:
+        kw = dict(time_steps=T, method=method, grid_sol=x, observation_map=_omap(omap))
+        if idx % 2:
+            kw["time_obs"] = "final"
+        pde = cuqi.pde.TimeDependentLinearPDE(form, **kw)
+        pde.assemble(th0)
+        sol = np.asarray(_quiet(pde.solve)[0], dtype=float)
+    except Exception as e:
+        ctx.mismatch(sig("raises"), c, "construct / assemble / solve raised %r (layouts %s, parameter as %s)" % (e, lays, how0))
+        return
+    exp0 = _seq_levels(c["new"]["sol"])
+    if not levels_ok(sol, exp0):
+        ctx.mismatch(sig("solution"), c, "solve() is not the solution of the discrete problem for the assembled parameter (layouts %s)"
+                     % lays, exp0, sol)
+        return
+    model = None
+    jac_of = {}
+    jac_seen = []
+    if via == "model":
+        # the Jacobian of the pipeline at the parameter asked for, exact from the specification
+        for e in c["hist"]:
+            if e["a"] == "gradient":
+                jac_of[tuple(float(v) for v in e["val"]["th"])] = np.array([_qv(col) for col in e["val"]["jac"]]).T
+        n_out = n
+
+        def jac(wrt):
+            wrt = np.asarray(wrt, dtype=float)
+            jac_seen.append(wrt.copy())
+            return jac_of.get(tuple(wrt.tolist()), np.full((n_out, 2), np.nan))
+        if idx % 2:
+            pde.jacobian_wrt_parameter = jac
+        else:
+            pde.gradient_wrt_parameter = lambda direction, wrt: np.asarray(direction, dtype=float) @ jac(wrt)
+        model = _quiet(lambda: cuqi.model.PDEModel(pde, range_geometry=n_out, domain_geometry=2))
+    cur = np.array(c["th0"], dtype=float)
+    for k, e in enumerate(c["hist"]):
+        a = e["a"]
+        path.append(a + (":" + e["arg"] if e["arg"] else ""))
+        ctx.case(("seq",) + ident + tuple((h["a"], h["arg"], json.dumps(h["val"].get("th"))) for h in c["hist"][:k + 1]),
+                 facet="%s/%s" % (fac, a))
+        try:
+            if a == "assemble":
+                th, how = param(e["val"]["th"], k + 1)
+                keep = np.array(e["val"]["th"], dtype=float)
+                pde.assemble(th)
+                cur = keep
+                if not np.array_equal(np.asarray(th, dtype=float), keep):
+                    ctx.mismatch(sig("arg_mutated"), c, "assemble changed the parameter array of the caller", keep, th)
+                    return
+            elif a == "solve":
+                del calls[:]
+                out = _quiet(pde.solve)
+                if not (isinstance(out, tuple) and len(out) == 2) or not levels_ok(out[0], _seq_levels(e["val"]["sol"])):
+                    wrong_levels(e, out[0] if isinstance(out, tuple) and out else repr(out)[:200],
+                                 "solve()" + (" (called again without a new assemble)" if e["arg"] else ""), "-")
+                    return
+                sol = np.asarray(out[0], dtype=float)
+                if any(not np.array_equal(p_, cur) for p_, _ in calls):
+                    ctx.mismatch(sig("form_calls"), c, "PDE_form is not evaluated with the parameter assembled last", cur,
+                                 [p_ for p_, _ in calls][:4])
+                    return
+                exp = _seq_expected_obs(c, e)
+                obs = np.asarray(_quiet(lambda: pde.observe(sol)), dtype=float)
+                if obs.shape != exp.shape or not _close(obs, exp, 1e-9):
+                    ctx.mismatch(sig("observe_value"), c, "observe(solve()) is not the last time level followed by the observation map",
+                                 exp, obs, detail={"step": len(path)})
+                    return
+            elif a == "forward":
+                th, how = param(e["val"]["th"], k + 1)
+                keep = np.array(e["val"]["th"], dtype=float)
+                del calls[:]
+                y = np.asarray(_quiet(lambda: model.forward(th)), dtype=float)
+                cur = keep
+                exp = _seq_expected_obs(c, e)
+                if y.shape != exp.shape or not _close(y, exp, 1e-9):
+                    ctx.mismatch(sig("forward_value"), c,
+                                 "PDEModel.forward(%s) after %s is not Observe(Solve(Assemble(theta))) for THIS parameter: the last level of "
+                                 "the %s recurrence from its initial condition, followed by the observation map (time_steps=%s; layouts %s, "
+                                 "parameter as %s)" % (e["val"]["th"], ".".join(path[:-1]) or "construction", method,
+                                                       _qv(c["T"]).tolist(), lays, how), exp, y, detail={"step": len(path)})
+                    return
+                if any(not np.array_equal(p_, cur) for p_, _ in calls):
+                    ctx.mismatch(sig("form_calls"), c, "PDE_form is not evaluated with the parameter of the forward call", cur,
+                                 [p_ for p_, _ in calls][:4])
+                    return
+                if not np.array_equal(np.asarray(th, dtype=float), keep):
+                    ctx.mismatch(sig("arg_mutated"), c, "PDEModel.forward changed the parameter array of the caller", keep, th)
+                    return
+            elif a == "gradient":
+                th = np.array(e["val"]["th"], dtype=float)
+                J = jac_of[tuple(th.tolist())]
+                direction = np.arange(1, n + 1, dtype=float) * np.array([1.0, -2.0])[:n]
+                del jac_seen[:]
+                g = np.asarray(_quiet(lambda: model.gradient(direction, th)), dtype=float)
+                if g.shape != (2,) or not _close(g, direction @ J, 1e-10) or not jac_seen or not np.array_equal(jac_seen[-1], th):
+                    ctx.mismatch(sig("gradient"), c, "PDEModel.gradient(direction, %s) after %s is not direction @ J(%s) of the supplied "
+                                 "Jacobian of the pipeline" % (th.tolist(), ".".join(path[:-1]), th.tolist()), direction @ J, g,
+                                 detail={"step": len(path)})
+                    return
+                # the supplied Jacobian IS the one of assemble - solve - observe: central differences of forward on a fresh object
+                if idx % 4 == 0:
+                    fresh = cuqi.pde.TimeDependentLinearPDE(_solve_form(c, [], "plain"), time_steps=_qv(c["T"]), method=method,
+                                                            grid_sol=_qv(c["new"]["gs"]), observation_map=_omap(omap))
+                    fm = _quiet(lambda: cuqi.model.PDEModel(fresh, range_geometry=n, domain_geometry=2))
+                    h = 1e-5
+                    for kk in range(2):
+                        d = np.zeros(2)
+                        d[kk] = h
+                        fd = (np.asarray(_quiet(lambda: fm.forward(th + d)), float) - np.asarray(_quiet(lambda: fm.forward(th - d)), float)) / (2 * h)
+                        if not _close(fd, J[:, kk], 1e-5):
+                            ctx.mismatch(sig("jacobian_fd"), c, "finite differences of PDEModel.forward disagree with the exact Jacobian of "
+                                         "Observe o Solve o Assemble (differentiated recurrence)", J[:, kk], fd)
+                            return
+            else:
+                from cuqiverif.core import MachineryError
+                raise MachineryError("PDE.tla (mode solve) emitted an unknown action %r" % (a,))
+        except Exception as ex:
+            from cuqiverif.core import MachineryError
+            if isinstance(ex, MachineryError):
+                raise
+            ctx.mismatch(sig("raises"), c, "%s raised %r (layouts %s)" % (a, ex, lays), detail={"step": k + 1})
+            return
+    # the arrays of the user are the user's
+    if not np.array_equal(np.asarray(T, dtype=float), _qv(c["T"])) or not np.array_equal(np.asarray(x, dtype=float), _qv(c["new"]["gs"])):
+        ctx.mismatch(sig("grid_arg_mutated"), c, "the calls changed time_steps / grid_sol of the caller", [_qv(c["T"]), _qv(c["new"]["gs"])], [T, x])
+
+
 def check_seq(ctx, cuqi, c, idx):
     kind, via = c["kind"], c["via"]
     mode = c.get("mode", "grid")
+    if mode == "solve":
+        return check_solve_seq(ctx, cuqi, c, idx)
     steady = kind == "sseq"
     m = c["m"]
     base = SEQ_BASE[mode] % ((kind, via) if mode == "grid" else (SEQ_CLASS[kind], via))
@@ -973,7 +1240,8 @@ def run(ctx):
     # named deviation -> the invariant it has to violate on the model
     devs = {"OperatorAtOldTime": "DiscreteEquation", "DtFromNextInterval": "DiscreteEquation", "StaleGridFlag": "SeqObserveCurrent",
             "AssembleSkipsSameObject": "SeqParamCurrent", "SetterSkipsSameObject": "SeqObserveCurrent",
-            "ObserveInSolutionOrder": "SeqObserveCurrent"}
+            "ObserveInSolutionOrder": "SeqObserveCurrent", "StaleStepSystem": "SeqSolveCurrent",
+            "GridsEqualWithinTolerance": "SobsImplExact", "FinalTimeWithinTolerance": "TobsImplExact"}
     wd = lambda label: os.path.join(_tlc.WORK, "PDE-c18-%s-%d" % (label, os.getpid()))
     # the (small) deviation runs are started together with the main run (JVM starts in sequence cost minutes on a loaded machine)
     pool = concurrent.futures.ThreadPoolExecutor(max_workers=len(devs))
@@ -982,7 +1250,8 @@ def run(ctx):
     try:
         res = ctx.tlc("PDE", cfg="PDE.%s.cfg" % ctx.tier, workers=16, timeout=3600,
                       require_actions=["Start", "Step", "SetGridObs", "SetGridSol", "SetTimeObs", "Assemble", "Solve", "Observe",
-                                       "Forward", "MutateParam", "Use", "MutateGrid", "Reassign"], workdir=wd("main"))
+                                       "Forward", "MutateParam", "Use", "MutateGrid", "Reassign", "SvAssemble", "SvSolveAct",
+                                       "SvForward", "SvGradient"], workdir=wd("main"))
     except BaseException:
         concurrent.futures.wait(list(fut.values()))
         for label in ["main"] + list(devs):                       # nothing of a failed run stays under .work
@@ -1034,6 +1303,35 @@ def run(ctx):
             missing = [name for name, pred in need.items() if not any(pred(c) for c in omine)]
             if missing:
                 raise MachineryError("vacuous model: no %s/%s behaviour of mode order with the pattern(s) %r" % (k, via, missing))
+    # mode "solve": for BOTH methods and a SINGLE time step: two different parameters solved one after the other on one object, a
+    # solve repeated without a new assemble, through the model two different parameters and a gradient at a parameter that is not
+    # the one of the last forward evaluation; a single node
+    sv = [c for c in seqs if c.get("mode") == "solve"]
+    for method in ("forward_euler", "backward_euler"):
+        for nt in (2, 3, 4):
+            for via, need in (("pde", {"assemble.solve.assemble.solve": lambda a, b, d, e: (
+                                           [h["a"] for h in (a, b, d, e)] == ["assemble", "solve", "assemble", "solve"]
+                                           and b["val"]["th"] != e["val"]["th"]),
+                                       "solve.solve[again]": lambda a, b: a["a"] == b["a"] == "solve" and b["arg"] == "again"}),
+                              ("model", {"forward(p1).forward(p2)": lambda a, b: a["a"] == b["a"] == "forward" and a["val"]["th"] != b["val"]["th"],
+                                         "forward(p1).gradient(p2)": lambda a, b: (a["a"] == "forward" and b["a"] == "gradient"
+                                                                                   and a["val"]["th"] != b["val"]["th"])})):
+                mine = [c for c in sv if c["method"] == method and len(c["T"]) == nt and c["via"] == via]
+                if nt == 4 and via == "model" and ctx.tier == "quick":
+                    continue
+                missing = [name for name, pred in need.items() if not any(_seq_has(c, pred) for c in mine)]
+                if missing:
+                    raise MachineryError("vacuous model: no solve-mode behaviour (%s, %d levels, %s) with %r" % (method, nt, via, missing))
+    if not any(c["m"]["n"] == 1 for c in sv) or not any(c["n"] == 1 for c in cases if c["kind"] in ("steady", "time")):
+        raise MachineryError("vacuous model: no single-node problem")
+    if not any(len(c["T"]) == 2 for c in cases if c["kind"] == "time"):
+        raise MachineryError("vacuous model: no time grid with a single step")
+    # where the grids lie on the axis: every change of variable with a staggered grid of the length of the solution grid
+    for kind_ in ("sobs", "tobs"):
+        have = set((c["xf"], c["g"]) for c in cases if c["kind"] == kind_)
+        xfs = set(c["xf"] for c in cases if c["kind"] == kind_)
+        if len(xfs) < 9 or any((xf_, g_) not in have for xf_ in xfs for g_ in ("same", "stag")):
+            raise MachineryError("vacuous model: %s cases do not cover every change of variable with the grids same / stag" % kind_)
     # the ORDER grids / times of the one-shot kinds
     for kind_, field, vals in (("sobs", "g", ("rev", "perm", "subu", "rep", "repu", "shiftu", "mixu")),
                                ("tobs", "g", ("rev", "perm", "subu", "rep", "repu", "shiftu", "mixu")),
@@ -1064,7 +1362,10 @@ def run(ctx):
           and [e["a"] for e in c["hist"]] == ["observe", "set_grid_obs", "observe"] and c["hist"][1]["arg"] == "subu"]
     if ex:
         ctx.sample({"case": {kk: vv for kk, vv in ex[0].items() if kk != "m"}}, limit=8)
-    ctx.observe("seq_behaviours_by_mode", {md: sum(1 for c in chosen if c.get("mode", "grid") == md) for md in ("grid", "param", "ginp", "order")})
+    ctx.observe("seq_behaviours_by_mode", {md: sum(1 for c in chosen if c.get("mode", "grid") == md) for md in ("grid", "param", "ginp", "order", "solve")})
+    ctx.observe("observation_cases_by_change_of_variable",
+                {xf_: sum(1 for c in cases if c["kind"] in ("sobs", "tobs") and c.get("xf") == xf_)
+                 for xf_ in sorted(set(c.get("xf", "id") for c in cases if c["kind"] in ("sobs", "tobs")))})
     ctx.observe("cases_by_order_of_observation_grid_and_times",
                 {o: sum(1 for c in cases if c["kind"] not in ("sseq", "tseq") and c.get("order") == o) for o in ("asc", "repeated", "unsorted")})
     ctx.rule = ("one case per problem emitted by TLC from PDE.tla (steady: matrices, theta, solver return shape, observation grid/map with "
